@@ -352,6 +352,159 @@ theorem covered_request_converts (e : EquivRec) (he : e ∈ equivalences) (m : M
   have h0 : (a == b) = false := by simpa using hab
   simp [h0, hfe, ha, hb, EquivRec.convert, hf]
 
+/-! ### units: the value does not depend on how input and target are spelled -/
+
+/-- "whatever units the input and target are expressed in": for a covered request between
+    zero-offset units, the SI magnitude of the result is the branch's formula applied to the SI
+    magnitude of the input — over any field, for every spelling (scale) of either unit, every
+    value and every keyword.  (Offset *targets* go through the affine rule of C03.) -/
+theorem convertValue_si {K : Type} [Lean.Grind.Field K] [BEq K] [LawfulBEq K] [RPow K] [HasSqrt K]
+    [OfRat K] [OfBits K]
+    (pre : Prefixes K) (t : Lut K) (reg : List EquivRec) (consts supplied : List (String × K))
+    (m : Mode) (u target : UnitV K) (xv : K) (eqv : Option String) (f : Formula)
+    (hroute : inUnitsRoute reg m u.dim target.dim eqv = .ok (.via f))
+    (hu : u.offset = 0) (ht : target.offset = 0) (hs : target.scale ≠ 0) (v : K)
+    (h : convertValue pre t reg consts supplied m u xv target eqv = .ok v) :
+    toBase target.scale target.offset v
+      = f.eval (mkEnv consts (effectiveParams reg eqv supplied) (toBase u.scale u.offset xv)) := by
+  unfold convertValue at h
+  simp only [hroute] at h
+  by_cases h1 : acceptsParams reg eqv (supplied.map (·.1)) = true
+  · by_cases h2 : (f.atoms.all (bound consts (effectiveParams reg eqv supplied))) = true
+    · have h3 : (u.offset != 0) = false := by simp [hu]
+      simp only [h1, h2, h3, Bool.not_true, Bool.false_and, Bool.false_eq_true, if_false] at h
+      have hd : ((target.dim != target.dim) = false) := by simp
+      simp only [toValue, inUnits, getConversionFactor, hd, ht, Bool.false_eq_true, if_false,
+        beq_self_eq_true, Bool.and_self, if_true, Except.map, applyFactor] at h
+      injection h with h
+      subst h
+      simp only [toBase, hu, ht]
+      have e1 : u.scale * (xv - 0) = xv * u.scale := by grind
+      rw [e1]
+      grind
+    · simp [h1, h2] at h
+  · simp [h1] at h
+
+/-- an input on an offset scale is refused (no number is produced) whenever the chain touches
+    the input with multiply / divide / subtract / add -/
+theorem offset_input_refused {K : Type} [Add K] [Sub K] [Mul K] [Div K] [OfNat K 0] [OfNat K 1]
+    [BEq K] [RPow K] [HasSqrt K] [OfRat K] [OfBits K]
+    (pre : Prefixes K) (t : Lut K) (reg : List EquivRec) (consts supplied : List (String × K))
+    (m : Mode) (u target : UnitV K) (xv : K) (eqv : Option String) (f : Formula)
+    (hroute : inUnitsRoute reg m u.dim target.dim eqv = .ok (.via f))
+    (hx : f.xInArith = true) (ho : (u.offset != 0) = true) (v : K) :
+    convertValue pre t reg consts supplied m u xv target eqv ≠ .ok v := by
+  unfold convertValue
+  simp only [hroute]
+  by_cases h1 : acceptsParams reg eqv (supplied.map (·.1)) = true
+  · by_cases h2 : (f.atoms.all (bound consts (effectiveParams reg eqv supplied))) = true
+    · simp [h1, h2, ho, hx]
+    · simp [h1, h2]
+  · simp [h1]
+
+/-- every chain of every equivalence except `effective_temperature` touches its input with
+    multiply / divide / subtract, in both modes -/
+theorem table_offset_refusal :
+    (equivalences.filter (fun e => e.name != "effective_temperature")).all
+      EquivRec.refusesOffsetInput = true := by
+  decide +kernel
+
+/-- full statement: a reading on an offset temperature scale (°C, °F) is never silently
+    converted as if it were absolute — no covered request with such an input yields a number -/
+def C09_offset_full : Prop :=
+  ∀ e ∈ equivalences, ∀ (m : Mode) (a b : Dim), a ∈ e.dims → b ∈ e.dims → a ≠ b →
+    ∀ (K : Type) [Add K] [Sub K] [Mul K] [Div K] [OfNat K 0] [OfNat K 1] [BEq K] [RPow K]
+      [HasSqrt K] [OfRat K] [OfBits K]
+      (pre : Prefixes K) (t : Lut K) (consts supplied : List (String × K)) (u target : UnitV K)
+      (xv : K), u.dim = a → target.dim = b → (u.offset != 0) = true →
+        ∀ v, convertValue pre t equivalences consts supplied m u xv target (some e.name) ≠ .ok v
+
+/-- it holds for every equivalence except `effective_temperature` (explicit guard) -/
+theorem C09_offset_partial :
+    ∀ e ∈ equivalences, e.name ≠ "effective_temperature" →
+    ∀ (m : Mode) (a b : Dim), a ∈ e.dims → b ∈ e.dims → a ≠ b →
+    ∀ (K : Type) [Add K] [Sub K] [Mul K] [Div K] [OfNat K 0] [OfNat K 1] [BEq K] [RPow K]
+      [HasSqrt K] [OfRat K] [OfBits K]
+      (pre : Prefixes K) (t : Lut K) (consts supplied : List (String × K)) (u target : UnitV K)
+      (xv : K), u.dim = a → target.dim = b → (u.offset != 0) = true →
+        ∀ v, convertValue pre t equivalences consts supplied m u xv target (some e.name) ≠ .ok v := by
+  intro e he hne m a b ha hb hab K _ _ _ _ _ _ _ _ _ _ _ pre t consts supplied u target xv hua htb ho v
+  obtain ⟨f, hroute, hmf⟩ := covered_request_converts e he m a b ha hb hab
+  have h1 := table_offset_refusal
+  rw [List.all_eq_true] at h1
+  have h2 := h1 e (List.mem_filter.mpr ⟨he, by simpa using hne⟩)
+  unfold EquivRec.refusesOffsetInput at h2
+  rw [List.all_eq_true] at h2
+  have h3 := h2 (a, b) (mem_orderedPairs ha hb hab)
+  have hx : f.xInArith = true := by
+    cases m
+    · cases hc : e.modeFormula Mode.copy a b with
+      | none => simp [hc] at h3
+      | some f1 =>
+        cases hi : e.modeFormula Mode.inplace a b with
+        | none => simp [hc, hi] at h3
+        | some f2 =>
+          simp only [hc, hi, Bool.and_eq_true] at h3
+          rw [hc] at hmf; injection hmf with hmf; subst hmf; exact h3.1
+    · cases hc : e.modeFormula Mode.copy a b with
+      | none => simp [hc] at h3
+      | some f1 =>
+        cases hi : e.modeFormula Mode.inplace a b with
+        | none => simp [hc, hi] at h3
+        | some f2 =>
+          simp only [hc, hi, Bool.and_eq_true] at h3
+          rw [hi] at hmf; injection hmf with hmf; subst hmf; exact h3.2
+  subst hua htb
+  exact offset_input_refused pre t equivalences consts supplied m u target xv (some e.name) f
+    (by simpa [inUnitsRoute] using hroute) hx ho v
+
+section counterexample
+open RatCarrier
+
+/-- °C as the regenerated unit table has it -/
+def degCRat : UnitV Rat :=
+  match (defaultLut Rat).find? "degC" with
+  | some ent => ⟨⟨1, [("degC", 1)]⟩, ent.scale, ent.offset, ent.dim, true⟩
+  | none => ⟨UExpr.one, 1, 0, Dim.one, true⟩
+
+/-- the coherent SI unit of flux (W/m²) -/
+def fluxSI : UnitV Rat := ⟨UExpr.one, 1, 0, Ref.C09.dFlux, true⟩
+
+def constsRat : List (String × Rat) := equivConstants.map (fun c => (c.1, ratOfBits c.2.1))
+
+/-- what the model (and unyt) returns for `(25 °C).to_equivalent("W/m**2", "effective_temperature")` -/
+def offsetWitness : Except Err Rat :=
+  convertValue (defaultPrefixes Rat) (defaultLut Rat) equivalences constsRat [] .copy degCRat 25 fluxSI
+    (some "effective_temperature")
+
+/-- **counterexample** (exact arithmetic on the regenerated tables): 25 °C is converted to
+    `σ·25⁴` (≈ 0.022 W/m²) — the reading taken as an absolute temperature — whereas the
+    temperature it denotes, 298.15 K, radiates `σ·298.15⁴` (≈ 448 W/m²).  The harness replays
+    this input on the real code on every run. -/
+theorem C09_offset_counterexample :
+    (match offsetWitness, constsRat.find? (fun c => c.1 == "σ") with
+      | .ok v, some σ => v == σ.2 * 390625 && v != σ.2 * ((25 + 27315 / 100) ^ 4 : Rat) && decide (0 < σ.2)
+      | _, _ => false) = true
+    ∧ (degCRat.offset != 0) = true ∧ degCRat.dim = Ref.C09.dTemperature := by
+  decide +kernel
+
+/-- hence the full statement fails -/
+theorem C09_offset_full_false : ¬ C09_offset_full := by
+  intro hfull
+  have hw := C09_offset_counterexample
+  cases hv : offsetWitness with
+  | error e => simp [hv] at hw
+  | ok v =>
+    have hmem : ∃ e ∈ equivalences, e.name = "effective_temperature" ∧ Ref.C09.dTemperature ∈ e.dims
+        ∧ Ref.C09.dFlux ∈ e.dims ∧ Ref.C09.dTemperature ≠ Ref.C09.dFlux := by decide +kernel
+    obtain ⟨e, he, hn, ha, hb, hab⟩ := hmem
+    have := hfull e he .copy _ _ ha hb hab Rat (defaultPrefixes Rat) (defaultLut Rat) constsRat []
+      degCRat fluxSI 25 hw.2.2 rfl hw.2.1 v
+    rw [hn] at this
+    exact this hv
+
+end counterexample
+
 /-! ### the property at full strength -/
 
 /-- C09, as a single statement about the regenerated table and the wrapper model -/
